@@ -1006,6 +1006,27 @@ def first_reached(prog, n):
     return ks
 
 
+def ws_layout_ok(toks, got, stopped):
+    """C15_layout_callbacks restated on the implementation's observation: the whitespace callbacks, concatenated (hex), are the
+    concatenation over a PREFIX of the document's tokens in order (all tokens, the end of input included, unless the parse was
+    stopped) of either the token's whole layout (scanned outside a skipped region) or its comments only (inside one)."""
+    full = ["".join(t for _, t in segs if t != "-") for _, segs, _ in toks]
+    comm = ["".join(t for k, t in segs if k == "c" and t != "-") for _, segs, _ in toks]
+    pos = {0}
+    for k in range(len(toks)):
+        if stopped and len(got) in pos:
+            return True
+        nxt = set()
+        for q in pos:
+            for s in (full[k], comm[k]):
+                if got.startswith(s, q):
+                    nxt.add(q + len(s))
+        pos = nxt
+        if not pos:
+            return False
+    return len(got) in pos
+
+
 def oracle(req, impl):
     del QBAD[:]
     sp = split_impl(impl)
@@ -1044,6 +1065,11 @@ def oracle(req, impl):
             got = "".join(e[1] for e in evs if e[0] == "ws" and e[1] != "-")
             if got != wstext:
                 return "%s: whitespace callbacks deliver %s, document whitespace is %s" % (mode, got, wstext)
+        else:
+            got = "".join(e[1] for e in evs if e[0] == "ws" and e[1] != "-")
+            if not ws_layout_ok(toks, got, stopped):
+                return ("%s: whitespace callbacks deliver %s: not the layout of a prefix of the document's tokens in order, comments "
+                        "always, whitespace runs per token all or none (document whitespace is %s)" % (mode, got, wstext))
         if mode == "S":
             try:
                 cif = parse_dump(sp["cif"])
